@@ -120,7 +120,8 @@ std::string run(const Scenario &s, CaseInfo &info) {
   std::vector<SinkSpec> specs;
   std::vector<std::pair<int, Call>> script[kMaxThreads];   // (0 log | 1 yield us)
   long seqs[kMaxThreads] = {0};
-  int cur_round = 0; unsigned early_mask = 0; bool early_reverse = false;   // SPLIT: sinks in early_mask are disabled between round 0 and round 1
+  int cur_round = 0; unsigned early_mask = 0, reen_mask = 0; bool early_reverse = false;   // SPLIT: sinks in early_mask are disabled between round 0 and round 1;
+                                                                                            // those also in reen_mask are enabled again (second life of the same sink object) before round 1
   for (auto &op : s.ops) {
     switch (op.code) {
       case CFG: maxlen = (size_t)kMaxLens[op.in(0, 0, 7)]; nthreads = (int)op.in(1, 1, kMaxThreads); break;
@@ -138,7 +139,7 @@ std::string run(const Scenario &s, CaseInfo &info) {
           case 5: L = 2047 + (size_t)(k % 4); break; case 6: L = 3 * maxlen + 1; break; default: L = (size_t)k % 200; }
         if (L > 400000) L = 400000;
         c.len = L; c.puts = op.in(5, 0, 1) == 1; c.round = cur_round; script[t].push_back({0, c}); break; }
-      case SPLIT: if (cur_round == 0) { cur_round = 1; early_mask = (unsigned)op.in(0, 0, 7); early_reverse = op.in(1, 0, 1) == 1; } break;
+      case SPLIT: if (cur_round == 0) { cur_round = 1; early_mask = (unsigned)op.in(0, 0, 7); early_reverse = op.in(1, 0, 1) == 1; reen_mask = (unsigned)op.in(2, 0, 7); } break;
       case YIELD: { Call c{}; c.len = (size_t)op.in(1, 0, 500); c.round = cur_round; script[op.in(0, 0, kMaxThreads - 1)].push_back({1, c}); break; }
       default: break;
     }
@@ -184,6 +185,36 @@ std::string run(const Scenario &s, CaseInfo &info) {
     sinks.emplace_back(sk);
   }
 
+  // ---- what a sink has got so far (no waiting)
+  std::string err;
+  bool any_trunc = false, any_roll = false, cross_boundary = false;
+  char buf[400];
+  auto collect = [&](size_t i, std::vector<Rec> &got) {
+    SinkSpec &sp = specs[i];
+    if (sp.kind == 0) { auto *r = static_cast<RecSyncSink *>(sinks[i].get()); got = r->recs; if (r->overlap) err = "sink callbacks overlapped (records dispatched concurrently to one sink)"; }
+    else if (sp.kind == 1) { auto *r = static_cast<RecAsyncSink *>(sinks[i].get()); std::string e2; if (!parse_stream(r->out, got, e2)) err = "async sink: " + e2; }
+    else if (sp.kind >= 3) { std::string e2; if (!parse_stream(read_file(stdout_path), got, e2)) err = "stdout sink: " + e2; }
+    else {
+      // log files in creation order: p.<YYYYmmdd_HHMMSS>.<pid>.log[.N]
+      std::vector<std::pair<std::pair<std::string, int>, std::string>> files;
+      if (DIR *d = opendir(fdirs[i].c_str())) {
+        while (dirent *e = readdir(d)) { std::string n = e->d_name; if (n == "." || n == ".." || n == "p.latest.log") continue;
+          size_t lp = n.find(".log"); int post = 0; if (lp != std::string::npos && lp + 4 < n.size()) post = atoi(n.c_str() + lp + 5);
+          files.push_back({{n.substr(0, 17), post}, n}); }
+        closedir(d);
+      }
+      std::sort(files.begin(), files.end());
+      for (size_t k = 0; k < files.size() && err.empty(); ++k) {
+        std::string content = read_file(fdirs[i] + "/" + files[k].second), e2;
+        size_t before = got.size();
+        if (!parse_stream(content, got, e2)) { err = "file sink, file " + files[k].second + ": " + e2 + " (a record was split or lost at roll-over)"; break; }
+        if (k + 1 < files.size() && content.size() < (size_t)kFileMax[sp.fmax]) { snprintf(buf, sizeof buf, "file sink: file %s was closed at %zu bytes, below the %ld byte limit", files[k].second.c_str(), content.size(), (long)kFileMax[sp.fmax]); err = buf; }
+        if (got.size() == before && !content.empty()) err = "file sink: non-empty file without a record";
+      }
+      if (files.size() >= 2) any_roll = true;
+    }
+  };
+
   // ---- run the logging threads
   long tids[kMaxThreads] = {0};
   std::atomic<int> go{0}, at_barrier{0}; std::atomic<bool> release{false};
@@ -210,11 +241,22 @@ std::string run(const Scenario &s, CaseInfo &info) {
   }
   // between the rounds: disable the "early" sinks (in creation or reverse order) while the others stay enabled
   while (at_barrier.load() < nthreads) std::this_thread::yield();
-  std::vector<bool> early(specs.size(), false);
+  std::vector<bool> early(specs.size(), false), reenabled(specs.size(), false);
   if (cur_round == 1) {
     std::vector<size_t> order; for (size_t i = 0; i < specs.size(); ++i) if (early_mask >> i & 1) order.push_back(i);
     if (early_reverse) std::reverse(order.begin(), order.end());
     for (size_t i : order) { sinks[i]->disable(); early[i] = true; }
+    fflush(stdout);   // SyncStdoutSink prints through stdio (the final check flushes likewise)
+    // everything of round 0 must be delivered / on disk now that disable() has returned (checked before a second life can flush it)
+    for (size_t i : order) {
+      if (!err.empty()) break;
+      std::vector<Rec> got; collect(i, got); if (!err.empty()) break;
+      SinkSpec &sp = specs[i]; size_t want = 0;
+      for (int t = 0; t < nthreads; ++t) for (auto &st : script[t]) if (st.first == 0 && st.second.round == 0 && st.second.level <= (sp.modlevel[st.second.module] >= 0 ? sp.modlevel[st.second.module] : sp.deflevel)) ++want;
+      if (got.size() != want) { snprintf(buf, sizeof buf, "sink %zu (kind %d): %zu of the %zu records logged before disable() are delivered when the (early) disable() returned", i, sp.kind, got.size(), want); err = buf; }
+    }
+    // second life of the same sink object
+    for (size_t i : order) if (reen_mask >> i & 1) { sinks[i]->enable(); early[i] = false; reenabled[i] = true; }
   }
   release = true;
   for (auto &t : th) t.join();
@@ -223,34 +265,10 @@ std::string run(const Scenario &s, CaseInfo &info) {
   LogSetMaxLength(old_max);
 
   // ---- collect what every sink got (no waiting)
-  std::string err;
-  bool any_trunc = false, any_roll = false, cross_boundary = false;
-  char buf[400];
   for (size_t i = 0; i < specs.size() && err.empty(); ++i) {
     SinkSpec &sp = specs[i];
     std::vector<Rec> got;
-    if (sp.kind == 0) { auto *r = static_cast<RecSyncSink *>(sinks[i].get()); got = r->recs; if (r->overlap) err = "sink callbacks overlapped (records dispatched concurrently to one sink)"; }
-    else if (sp.kind == 1) { auto *r = static_cast<RecAsyncSink *>(sinks[i].get()); std::string e2; if (!parse_stream(r->out, got, e2)) err = "async sink: " + e2; }
-    else if (sp.kind >= 3) { std::string e2; if (!parse_stream(read_file(stdout_path), got, e2)) err = "stdout sink: " + e2; }
-    else {
-      // log files in creation order: p.<YYYYmmdd_HHMMSS>.<pid>.log[.N]
-      std::vector<std::pair<std::pair<std::string, int>, std::string>> files;
-      if (DIR *d = opendir(fdirs[i].c_str())) {
-        while (dirent *e = readdir(d)) { std::string n = e->d_name; if (n == "." || n == ".." || n == "p.latest.log") continue;
-          size_t lp = n.find(".log"); int post = 0; if (lp != std::string::npos && lp + 4 < n.size()) post = atoi(n.c_str() + lp + 5);
-          files.push_back({{n.substr(0, 17), post}, n}); }
-        closedir(d);
-      }
-      std::sort(files.begin(), files.end());
-      for (size_t k = 0; k < files.size() && err.empty(); ++k) {
-        std::string content = read_file(fdirs[i] + "/" + files[k].second), e2;
-        size_t before = got.size();
-        if (!parse_stream(content, got, e2)) { err = "file sink, file " + files[k].second + ": " + e2 + " (a record was split or lost at roll-over)"; break; }
-        if (k + 1 < files.size() && content.size() < (size_t)kFileMax[sp.fmax]) { snprintf(buf, sizeof buf, "file sink: file %s was closed at %zu bytes, below the %ld byte limit", files[k].second.c_str(), content.size(), (long)kFileMax[sp.fmax]); err = buf; }
-        if (got.size() == before && !content.empty()) err = "file sink: non-empty file without a record";
-      }
-      if (files.size() >= 2) any_roll = true;
-    }
+    collect(i, got);
     if (!err.empty()) break;
     // expected records of this sink
     auto passes = [&](const Call &c) { int th_ = sp.modlevel[c.module] >= 0 ? sp.modlevel[c.module] : sp.deflevel; return c.level <= th_; };
@@ -292,6 +310,7 @@ std::string run(const Scenario &s, CaseInfo &info) {
   info.cls_if(any_roll, "file_rollover");
   info.cls_if(saved_stdout >= 0, "in_tree_stdout_sink");
   { bool some_early = false, some_late = false; for (size_t i = 0; i < specs.size(); ++i) (early[i] ? some_early : some_late) = true; info.cls_if(cur_round == 1 && some_early && some_late, "sink_disabled_while_others_stay_enabled"); }
+  { bool re = false; for (size_t i = 0; i < specs.size(); ++i) if (reenabled[i]) re = true; info.cls_if(re, "sink_object_enabled_again_after_disable"); }
   { bool redef = false; for (auto &sp : specs) if (sp.redefinitions) redef = true; info.cls_if(redef, "module_level_reconfigured"); }
   info.nontrivial = (nthreads >= 2 && has_async && cross_boundary) || any_trunc || any_roll;
   return "";
@@ -300,7 +319,7 @@ std::string run(const Scenario &s, CaseInfo &info) {
 SubDef def = [] {
   SubDef d; d.name = "logging";
   d.op_names = {"cfg", "sink", "modlvl", "log", "yield", "split"};
-  d.op_arity = {2, 7, 3, 6, 2, 2};
+  d.op_arity = {2, 7, 3, 6, 2, 3};
   d.nt_rule = ">= 2 threads logging concurrently to an async sink with a record crossing a pipe-buffer boundary, or a truncated record, or a file roll-over inside the run";
   d.run = run;
 #ifndef VERIF_ENGINE_FUZZ
@@ -313,7 +332,7 @@ SubDef def = [] {
       {12, mkop(LOG, {th, range(0, 7), range(0, 3), range(0, 9), range(0, 3000), range(0, 1)})},
       {2, mkop(YIELD, {th, rc::gen::weightedOneOf<int64_t>({{3, range(0, 49)}, {1, range(50, 500)}})})},
       {2, mkop(MODLVL, {range(0, 2), range(0, 3), range(-1, 7)})},
-      {1, mkop(SPLIT, {range(0, 7), range(0, 1)})},
+      {1, mkop(SPLIT, {range(0, 7), range(0, 1), range(0, 7)})},
     });
     return rc::gen::apply([](std::vector<Op> h, std::vector<Op> p, std::vector<Op> b) {
       Scenario s; s.ops = std::move(h); for (auto &o : p) s.ops.push_back(o); for (auto &o : b) s.ops.push_back(o); return s; },
